@@ -50,6 +50,9 @@ def _cases(draw):
     for e in extras:
         d.tag("scalar.with_" + e)
     d.tag("scalar." + style, "scalar.datetime_" + dt_style)
+    prune = d.bool(0.4)
+    if prune:
+        d.tag("cfg.prune")
 
     def hook(dd, desc):
         desc.scalar_kinds = {"Money": "money"}
@@ -67,6 +70,9 @@ def _cases(draw):
             for e in extras:
                 sc[e] = f"{e}_moneystr"
         cfg["scalars"]["Money"] = sc
+        if prune:
+            cfg["include_all_inputs"] = False
+            cfg["include_all_enums"] = False
         if dt_style == "dotted" and "DateTime" in desc.scalars:
             cfg["scalars"]["DateTime"] = {"type": "datetime.datetime"}
         return cfg, {"scalars_impl.py": SCALARS_IMPL}
